@@ -569,7 +569,19 @@ func TestC06Payload(t *testing.T) {
 
 		if rapid.IntRange(0, 3).Draw(t, "asmember") == 0 {
 			first := ss.Types[rapid.IntRange(0, len(ss.Types)-1).Draw(t, "firsttype")].Name
-			text := `[{"id":"first","type":` + gen.QuoteJSON(first) + `},` + pc.Text + `]`
+			// (now and then many members in front of it: a size at which the
+			// members may be handed to several workers)
+			before := 1
+			if rapid.IntRange(0, 9).Draw(t, "manymembers") == 0 {
+				before = rapid.IntRange(31, 40).Draw(t, "nmembers")
+			}
+
+			text := "["
+			for i := 0; i < before; i++ {
+				text += `{"id":` + gen.QuoteJSON(fmt.Sprintf("first%d", i)) + `,"type":` + gen.QuoteJSON(first) + `},`
+			}
+
+			text += pc.Text + `]`
 			labels = append(labels, "as-collection-member")
 
 			unmarshal = func() {
@@ -577,11 +589,17 @@ func TestC06Payload(t *testing.T) {
 
 				col, err = jsonapi.UnmarshalCollection([]byte(text), ss.Schema)
 				if err == nil {
-					if col == nil || col.Len() != 2 {
-						t.Fatalf("C06 violated: UnmarshalCollection accepted an array of two resource objects and returned %v\npayload: %s", col, text)
+					if col == nil || col.Len() != before+1 {
+						t.Fatalf("C06 violated: UnmarshalCollection accepted an array of %d resource objects and returned %v\npayload: %s", before+1, col, text)
 					}
 
-					res = col.At(1)
+					res = col.At(before)
+
+					for i := 0; i < before; i++ {
+						if m := col.At(i); m == nil || m.Get("id") != fmt.Sprintf("first%d", i) {
+							t.Fatalf("C06 violated: member %d of the collection is not the one the payload lists there\npayload: %s", i, text)
+						}
+					}
 				}
 			}
 		}
